@@ -154,14 +154,16 @@ def vc_to_function_arg():
     obs = []
     its = []
     con = _contract(CPU, "KernelCpu.to_function_arg")
-    cpuctx = SymObj("ContextCpu", {})
+    cpuctx = SymObj("ContextCpu", {"openmp_enabled": False, "omp_num_threads": 0})
     cpuctx.closed = True
 
     def run(label, arg, value, check):
         it = env()
         its.append(it)
         it.extern_names["ContextCpu"] = ClassVal("ContextCpu", CPU)
-        selfo = SymObj("KernelCpu", {"ffi_interface": FFI(), "description": SymObj("Kernel", {"pyname": "k"})})
+        # every attribute KernelCpu.__init__ / Kernel.__init__ / Arg.__init__ set (a rewritten body may read any of them)
+        selfo = SymObj("KernelCpu", {"ffi_interface": FFI(), "description": SymObj("Kernel", {"pyname": "k", "c_name": "k", "args": PList([]), "ret": None, "n_threads": None}),
+                                     "context": cpuctx, "source": None, "specialized_source": None})
         selfo.closed = True
         try:
             for st, out in it.exec_function(con, {"self": selfo, "arg": arg, "value": value}):
@@ -172,7 +174,7 @@ def vc_to_function_arg():
         return it.obligations
 
     def mkarg(T, pointer):
-        a = SymObj("Arg", {"atype": T, "pointer": pointer, "name": "x", "const": False})
+        a = SymObj("Arg", {"atype": T, "pointer": pointer, "name": "x", "const": False, "factory": None})
         a.closed = True
         return a
 
@@ -258,10 +260,10 @@ def vc_call():
     con = _contract(CPU, "KernelCpu.__call__")
     args = []
     for nm in ("a", "b"):
-        a = SymObj("Arg", {"name": nm})
+        a = SymObj("Arg", {"name": nm, "atype": None, "pointer": False, "const": False, "factory": None})
         a.closed = True
         args.append(a)
-    desc = SymObj("Kernel", {"args": PList(args), "ret": None, "pyname": "k"})
+    desc = SymObj("Kernel", {"args": PList(args), "ret": None, "pyname": "k", "c_name": "k", "n_threads": None})
     desc.closed = True
     calls = []
 
@@ -272,7 +274,7 @@ def vc_call():
     # a serial context as ContextCpu.__init__ makes it (every attribute the constructor sets that a call may look at)
     ctx = SymObj("ContextCpu", {"openmp_enabled": False, "omp_num_threads": 0})
     ctx.closed = True
-    selfo = SymObj("KernelCpu", {"function": Fn(), "description": desc, "context": ctx,
+    selfo = SymObj("KernelCpu", {"function": Fn(), "description": desc, "context": ctx, "source": None, "specialized_source": None, "ffi_interface": None,
                                  "to_function_arg": _M(lambda i, s, a, k, n: ("converted", a[0].attrs["name"], a[1]))})
     selfo.closed = True
     it.class_home["KernelCpu"] = CPU
